@@ -4,11 +4,11 @@ From Coq Require Import List NArith ZArith.
 Require Extraction.
 Require Import ExtrOcamlBasic.
 From Mos Require Import Gen.OpcodeTable spec.Isa model.Encode model.Output spec.Layout
-  model.I64 Gen.BinOps Gen.ExprGrammar model.Expr model.ExprParse spec.ExprSem spec.ExprPrint.
+  model.I64 Gen.BinOps Gen.ExprGrammar model.Expr model.ExprParse spec.ExprSem spec.ExprPrint Gen.TextEnc model.TextEnc spec.TextEncSpec.
 
 Extraction "../extract/gen/model.ml"
   Z.add Z.mul Z.sub Z.opp Z.div Z.modulo Z.pow Z.ltb Z.eqb Z.of_N Z.to_N N.add N.mul Z.of_nat Z.to_nat
   all_mnemonics all_forms
   emit_instruction spec_encode spec_branch is_branch isa all_modes
-  parse_expression ws pr_loose expr_of_loose wf_loose eval emit_data sem spec_le_bytes number_value apply_i64 all_binops
+  encode_text spec_petscii spec_screen parse_expression ws pr_loose expr_of_loose wf_loose eval emit_data sem spec_le_bytes number_value apply_i64 all_binops
   merge_segments build_output build_project spec_project write_banks finalize spec_build spec_byte spec_lo spec_hi spec_file spec_prg_header bank_segments bank_of fill_of.
